@@ -295,6 +295,8 @@ impl<T: CoordsFloat> CMap3<T> {
                     pending.push_back(self.beta_transac::<1>(trans, b2)?);
                     pending.push_back(self.beta_transac::<3>(trans, b0)?); // ?
                     pending.push_back(self.beta_transac::<2>(trans, b0)?); // ?
+                    // inverse of b3(b2(d)); cannot be derived from the others around an open face
+                    pending.push_back(self.beta_transac::<2>(trans, b3)?);
                 }
             }
 
